@@ -3,7 +3,7 @@
    templates, and signed W-bit storage. *)
 From Coq Require Import ZArith List Bool.
 Import ListNotations.
-Open Scope Z_scope.
+Local Open Scope Z_scope.
 
 (* The property's own definition of what gate id g means: the truth table over
    AB = 00,01,10,11 is the 4-bit binary expansion of g, most significant first. *)
